@@ -2156,3 +2156,83 @@ def c14_language_lines(ctx):
 
 
 P.PROPS["C14"]["streams"] += [c14_language_lines, P.unit_language]
+
+
+def c03_description_shapes(ctx):
+    """descriptions of every node kind assembled from every short sequence of comment / empty / blank / text lines
+    (a description may start at a comment; blank lines after it are content; trailing blank lines go)"""
+    import itertools
+    pieces = {"c": "  # note\n", "e": "\n", "b": "   \t\n", "t": "  some text\n", "k": "  Given not a step here?\n", "u": "\ttabbed text  \n"}
+    heads = [("Feature: f\n", "  Scenario: s\n    Given g\n"),
+             ("Feature: f\n  Background: b\n", "    Given g\n  Scenario: s\n    Given h\n"),
+             ("Feature: f\n  Rule: r\n", "    Example: e\n      Given g\n"),
+             ("Feature: f\n  Scenario Outline: o\n", "    Given <a>\n    Examples: x\n      | a |\n      | 1 |\n"),
+             ("Feature: f\n  Scenario Outline: o\n    Given <a>\n    Examples: x\n", "      | a |\n      | 1 |\n")]
+    srcs = []
+    keys = "cebtu"
+    for n in range(0, 4):
+        for combo in itertools.product(keys, repeat=n):
+            body = "".join(pieces[x] for x in combo)
+            for i, (pre, post) in enumerate(heads):
+                if n == 3 and i not in (0, 1) and ("".join(combo).__len__() + sum(map(ord, combo))) % 3:
+                    continue
+                srcs.append(pre + body + post)
+    r = rng("c03desc")
+    for _ in range(S.n_for(200, 3000)):
+        combo = [r.choice("cebtuk") for _ in range(r.randint(3, 7))]
+        pre, post = r.choice(heads)
+        srcs.append(pre + "".join(pieces[x] for x in combo) + post)
+    return e2e("description-shapes", srcs, P.p_ast_text, nontrivial=nt_accepted("ast"), exhaustive=False)
+
+
+P.PROPS["C03"]["streams"].append(c03_description_shapes)
+
+
+def c01_error_line_characters(ctx):
+    """an unexpected line is quoted in its error whatever characters it contains: braces, percent signs, backslashes,
+    quotes, format fields, NUL-free control characters, non-BMP characters -- a typed error, never anything else"""
+    odd = ["{", "}", "{}", "{0}", "{line}", "{column!r}", "{\"key\": 1}", "%s", "%(x)s", "%", "100%d", "\\", "\\1", "\\g<0>", "$1", "'", "\"", "'''",
+           "{{", "}}", "{:>10}", "\t{x}\t", "a{b}c{d", "\U0001F600{", "${HOME}", "#{x}", "<%= x %>", "{[}", "{0.__class__}"]
+    ctxs = [("Feature: f\n  Scenario: s\n    Given g\n", "\n"),            # after a step: an unexpected line
+            ("Feature: f\n  Scenario: s\n    Given g\n      | a |\n", "\n"),  # after a table row
+            ("", "\nFeature: f\n"),                                       # before the feature
+            ("Feature: f\n  @tag\n", "\n  Scenario: s\n")]               # after a tag line
+    srcs = [pre + "    " + o + post for o in odd for pre, post in ctxs]
+    srcs += ["Feature: f\n  Scenario: s\n    Given g\n  @a{b} @c d\n  Scenario: t\n", "# language: {x}\nFeature: f\n", "#language:%s\nFeature: f\n"]
+    reqs = [("parse", [stop, "en", s]) for s in srcs for stop in (False, True)] + [("events", [False, True, True, False, [["u", s]]]) for s in srcs]
+
+    def proj(x, req=None):
+        if "errors" in x:
+            return [(e.get("type"), e.get("message")) for e in x["errors"]]
+        if "error" in x:
+            return [(x["error"].get("type"), x["error"].get("message"))]
+        if "envelopes" in x:
+            return [(list(e)[0], e["parseError"]["message"] if "parseError" in e else None) for e in x["envelopes"]]
+        return {"outcome": P.outcome(x), "type": x.get("foreign")}
+    return differential("error-line-characters", reqs, proj=proj, nontrivial=lambda q, x: canon(q[1])[:200] if ("errors" in x or "error" in x or any("parseError" in e for e in x.get("envelopes", []))) else None,
+                        classify=lambda q, x: q[0] + (" foreign" if "foreign" in x else ""), exhaustive=True)
+
+
+P.PROPS["C01"]["streams"].append(c01_error_line_characters)
+P.PROPS["C14"]["streams"].append(c01_error_line_characters)
+
+
+def c09_many_occurrences(ctx):
+    """every occurrence is replaced, however many there are (1 .. 300 of one placeholder in a name, a step, a cell, a doc string,
+    a media type; several placeholders interleaved)"""
+    srcs = []
+    for n in (1, 2, 31, 32, 33, 34, 63, 64, 65, 100, 300):
+        many = " ".join(["<a>"] * n)
+        mixed = "".join("<a><b>" for _ in range(n))
+        srcs.append("Feature: f\n  Scenario Outline: o %s\n    Given s %s\n      | %s | x<b> |\n    And d\n      \"\"\"<b>\n      %s\n      %s\n      \"\"\"\n"
+                    "    Examples:\n      | a | b |\n      | V | W |\n      | <b> | <a> |\n      |  | \\| |\n" % (many, mixed, many, many, mixed))
+    reqs = [("events", [False, False, True, False, [["u", s]]]) for s in srcs]
+
+    def pr(r_, req=None):
+        if "envelopes" not in r_:
+            return {"outcome": P.outcome(r_)}
+        return [{"name": e["pickle"]["name"], "steps": [[st["text"], st.get("argument")] for st in e["pickle"]["steps"]]} for e in r_["envelopes"] if "pickle" in e]
+    return differential("many-occurrences", reqs, proj=pr, nontrivial=lambda q, x: canon(q[1])[:120], classify=lambda q, x: "doc", exhaustive=True)
+
+
+P.PROPS["C09"]["streams"].append(c09_many_occurrences)
